@@ -1,9 +1,9 @@
 //! C07 — PSET value codecs round-trip and re-serialization is a fixpoint (per-value level only).
 //@@ prop: C07
-//@@ functions: pset::serialize::{Serialize, Deserialize} impls for u8/u32/u64, Sequence, LockTime, [u8;32], PsbtSighashType, Tweak, AssetBlindingFactor, bitcoin::PublicKey, XOnlyPublicKey, SchnorrSig, (XOnlyPublicKey, TapLeafHash), ControlBlock, Generator, PedersenCommitment (real)
-//@@ bounds: fully symbolic byte slices of symbolic length up to the type's maximal encoding + 1 (ControlBlock: <= 1 merkle node, thorough)
+//@@ functions: pset::serialize::{Serialize, Deserialize} impls for u8/u32/u64, Sequence, LockTime, [u8;32], PsbtSighashType, Tweak, AssetBlindingFactor, bitcoin::PublicKey, XOnlyPublicKey, SchnorrSig, (XOnlyPublicKey, TapLeafHash), Generator, PedersenCommitment (real)
+//@@ bounds: fully symbolic byte slices of symbolic length up to the type's maximal encoding + 1
 //@@ assumptions: libsecp parsers/serializers replaced by contract models (curve validity uninterpreted; two points per valid x, told apart by y parity)
-//@@ outside: value codecs that did not fit (out of memory): KeySource (loop of `?` decodes), (Script, LeafVersion); confidential::Asset/Value value impls are not used by the map decoders (their Null arm is documented as never invoked) and are not checked; NOT DECIDED: raw::Key/Pair framing, the map decoders (duplicate keys, mandatory fields, counts), whole-PSET round trip and fixpoint, base64, TapTree, ELIP-100/102 accessors (BTreeMap-backed maps and whole-PSET decoding are out of CBMC's reach, DESIGN 7.1)
+//@@ outside: value codecs that did not fit (out of memory / time-out): KeySource (loop of `?` decodes), (Script, LeafVersion), ControlBlock; confidential::Asset/Value value impls are not used by the map decoders (their Null arm is documented as never invoked) and are not checked; NOT DECIDED: raw::Key/Pair framing, the map decoders (duplicate keys, mandatory fields, counts), whole-PSET round trip and fixpoint, base64, TapTree, ELIP-100/102 accessors (BTreeMap-backed maps and whole-PSET decoding are out of CBMC's reach, DESIGN 7.1)
 use crate::stubs;
 use elements::pset::serialize::{Deserialize, Serialize};
 
@@ -88,9 +88,8 @@ vc!(val_xonly_leafhash, (elements::bitcoin::key::XOnlyPublicKey, elements::tapro
 vc!(val_generator, elements::secp256k1_zkp::Generator, 34, true, 70);
 vc!(val_commitment, elements::secp256k1_zkp::PedersenCommitment, 34, true, 70);
 //@end
-//@begin prop=C07 tier=thorough secp=1 mem=16 timeout=3000 desc="PSET value codecs, heavier types"
-vc!(val_control_block, elements::taproot::ControlBlock, 66, true, 70);
-//@end
+// NOT REGISTERED (time-out after 3000 s):
+// vc!(val_control_block, elements::taproot::ControlBlock, 66, true, 70);
 
 //@ prop=C07 tier=quick secp=1 mem=10 timeout=1200 desc="value side: bitcoin::PublicKey in BOTH compressed and uncompressed form, SchnorrSig with every hash type: deserialize(serialize(v)) == v and the encoded length is the form's length"
 #[kani::proof]
